@@ -63,7 +63,9 @@ def run(ctx):
         # conditions ending in the pair of bounds SetTimeRange itself writes, after a bound of any other form
         parts.append(("tail", cfg(ctx, maxatoms=4, minatoms=3, maxt=3, mode="tail", nt=0, ops=OPS3, spells='{"time", "Time"}',
                                   forms='{"rfc", "now", "int"}', bases="{2, 3}", calls=2, wins="{1, 2, 5}", topor=False), None, None))
-        parts.append(("sim", cfg(ctx, maxatoms=3, minatoms=2, bases="{1, 2, 3, 4}", offn=1, nt=1, shapes=2, wins="{1, 2, 3, 4, 5}"), "num=150", 8))
+        # empty and reversed windows among ordinary ones, every sequence of 3
+        parts.append(("empty", cfg(ctx, maxatoms=1, mode="rot", nt=1, ops=OPS3, wins="{1, 2, 6, 7}", calls=3), None, None))
+        parts.append(("sim", cfg(ctx, maxatoms=3, minatoms=2, bases="{1, 2, 3, 4}", offn=1, nt=1, shapes=2, wins="{1, 2, 3, 4, 5, 6, 7}"), "num=150", 8))
     else:
         # every single atom (all operators, spellings, sides, forms), every sequence of 3 out of 4 windows
         parts.append(("one", cfg(ctx, maxatoms=1, mode="all", nt=2, shapes=0, wins="{1, 2, 3, 5}"), None, None))
@@ -81,12 +83,13 @@ def run(ctx):
                                     wins="{1, 2, 5}", topor=False), None, None))
         parts.append(("tail", cfg(ctx, maxatoms=4, minatoms=3, maxt=3, mode="tail", nt=0, bases="{2, 3}", calls=2,
                                   wins="{1, 2, 3, 5}", topor=False), None, None))
-        parts.append(("sim", cfg(ctx, maxatoms=3, minatoms=2, bases="{1, 2, 3, 4}", offn=1, nt=2, shapes=2, wins="{1, 2, 3, 4, 5}"), "num=1500", 8))
+        parts.append(("empty", cfg(ctx, maxatoms=2, mode="rot", nt=1, ops=OPS3, wins="{1, 2, 6, 7}", calls=3, topor=False), None, None))
+        parts.append(("sim", cfg(ctx, maxatoms=3, minatoms=2, bases="{1, 2, 3, 4}", offn=1, nt=2, shapes=2, wins="{1, 2, 3, 4, 5, 6, 7}"), "num=600", 8))
     _c10.pipeline(ctx, "Gen_c18", "c18", "Judge_c18", lambda group: "Judge_c18.cfg",
                   [dict(name=p[0], cfg=p[1], group="all", sim=p[2], depth=p[3]) for p in parts], "histories",
                   lambda x: dict(text=x["obs"].get("text"), wins=x.get("wins"),
                                  conds=[st.get("cond") for st in x["obs"].get("steps", [])]),
-                  tzs=("America/New_York",))
+                  tzs=(("America/New_York", 4, 1), ("America/Los_Angeles@utc0", 8, 2)))
     ctx.coverage_extra["exhaustive_parts"] = [p[0] for p in parts if not p[2]]
     ctx.coverage_extra["sampled_parts"] = [p[0] for p in parts if p[2] and p[2] != "M"]
     ctx.coverage_extra["model_only_parts"] = [p[0] for p in parts if p[2] == "M"]
